@@ -7,7 +7,8 @@ guarded pieces — with BOTH branches of every `if (pretty)` (guard `.pretty tru
 are two separately written pieces of C and nothing in the C forces them to print the same arguments.  Which C variable feeds a `%u`
 decides the piece: `functionIndexIndex` (the loop counter = POSITION inside the segment) is `.position`, `functionIndex`
 (= elementSegment.functionIndices[functionIndexIndex]) is `.funcIndex`, `table.min` / `table.max` are `.tableMin` / `.tableMax`.
-Any other statement, argument, literal or loop shape raises ExtractFail (= broken tie).
+Read on the normal form of tools/extract/cnorm.py (local names free, temporaries substituted, for ≡ while, `if (c) A else B` ≡
+`if (!c) B else A`, literals by value).  Any other statement, argument, literal or loop shape raises ExtractFail (= broken tie).
 
 Model/InitTables.lean interprets the lists; Props/C04Tables.lean proves that the pretty and the compact text consist of the same
 tokens and that the text of a segment denotes `Model.writeSeg` (slot offset + position := listed function) — what
@@ -18,24 +19,31 @@ import re
 
 from cfront import ExtractFail
 from gen_instantiate import strip_comments, function_body
-from gen_initmem import parse_stmts, must_unwrap, split_args, nows, c_unescape, find_for
+import cnorm
 
 GEN_NAME = "InitTables"
 C = "w2c2/c.c"
 KW = [("U32offset;", "declOffset"), ("wasmTableAllocate(", "allocOpen"), (",", "comma"), (");", "closeSemi"), ("offset=", "offsetAssign"),
       (";", "semi"), (".data[offset+", "dataOffsetPlus"), ("]=(wasmFunc)", "closeAssignCast")]
-KW_OF = dict(KW)
-FMT_ARGS = {("%u", "functionIndexIndex"): "position", ("%u", "functionIndex"): "funcIndex", ("%u", "table.min"): "tableMin", ("%u", "table.max"): "tableMax"}
-DECLS = {
-    "constWasmTabletable=module->tables.tables[tableIndex]": None,
-    "constWasmElementSegmentelementSegment=module->elementSegments.elementSegments[elementSegmentIndex]": None,
-    "constBuffercode=elementSegment.offset": ("code", "elementSegment.offset"),
-    "constU32functionIndex=elementSegment.functionIndices[functionIndexIndex]": ("functionIndex", "elementSegment.functionIndices[functionIndexIndex]"),
-}
+SEG = "module->elementSegments.elementSegments[$i1]"
+TAB = "module->tables.tables[$i0]"
+FMT_ARGS = {("%u", "$i0", "entry"): "position", ("%u", SEG + ".functionIndices[$i0]", "entry"): "funcIndex",
+            ("%u", TAB + ".min", "table"): "tableMin", ("%u", TAB + ".max", "table"): "tableMax"}
+TABLE_REF = ("wasmCWriteFileTableUse(file,module,assertSizeU32(module->tableImports.length)+$i0,true)",
+             "wasmCWriteFileTableUse(file,module,$i0+assertSizeU32(module->tableImports.length),true)",
+             "wasmCWriteFileTableUse(file,module,(assertSizeU32(module->tableImports.length)+$i0),true)")
+
+
+def nows(s):
+    return re.sub(r"\s+", "", s)
+
+
+def c_unescape(s):
+    return s.replace("\\n", "\n").replace("\\t", "\t").replace('\\"', '"').replace("\\\\", "\\")
 
 
 def literal_pieces(lit, where):
-    """a literal may be several known chunks in a row (", %u, %u);" is split at the conversions before it gets here)"""
+    """a literal may be several known chunks in a row"""
     t = nows(c_unescape(lit))
     out = []
     while t:
@@ -49,17 +57,21 @@ def literal_pieces(lit, where):
     return out
 
 
-def leaf(text, where, aliases):
-    t = nows(text)
-    if t in ("fputs(indentation,file)", "MUST(stringBuilderReset(&stringBuilder))"):
+def split_args(s):
+    return [x.strip() for x in cnorm._split_top(s, ",")]
+
+
+def leaf(text, where, ctx, sb):
+    """one `do` statement (canonical text) of loop `ctx` ('decl' | 'table' | 'seg' | 'entry') -> pieces"""
+    if text in ("fputs(indentation,file)", "MUST(stringBuilderReset(&%s))" % sb):
         return []
-    m = re.fullmatch(r'fputs\s*\(\s*"((?:[^"\\]|\\.)*)"\s*,\s*file\s*\)', text, re.S)
+    m = re.fullmatch(r'fputs\("((?:[^"\\]|\\.)*)",file\)', text, re.S)
     if m:
         return literal_pieces(m.group(1), where)
-    m = re.fullmatch(r"fprintf\s*\((.*)\)", text, re.S)
+    m = re.fullmatch(r"fprintf\((.*)\)", text, re.S)
     if m:
         args = split_args(m.group(1))
-        if len(args) < 2 or nows(args[0]) != "file" or not re.fullmatch(r'"(?:[^"\\]|\\.)*"', args[1]):
+        if len(args) < 2 or args[0] != "file" or not re.fullmatch(r'"(?:[^"\\]|\\.)*"', args[1], re.S):
             raise ExtractFail(where, "fprintf of an unexpected shape: %s" % text[:60])
         fmt = args[1][1:-1]
         rest = args[2:]
@@ -70,73 +82,44 @@ def leaf(text, where, aliases):
             pos = sm.end()
             if not rest:
                 raise ExtractFail(where, "fprintf: more conversions than arguments")
-            a = nows(rest.pop(0))
-            key = (sm.group(0), a)
+            a = rest.pop(0)
+            key = (sm.group(0), a, ctx)
             if key not in FMT_ARGS:
-                raise ExtractFail(where, "fprintf conversion `%s` of `%s` is not a known item of InitTables" % key)
-            if a == "functionIndex" and aliases.get("functionIndex") != "elementSegment.functionIndices[functionIndexIndex]":
-                raise ExtractFail(where, "`functionIndex` is not the listed function of the current entry")
+                raise ExtractFail(where, "fprintf conversion `%s` of `%s` is not a known item of the %s loop of InitTables" % key)
             out.append(".%s" % FMT_ARGS[key])
         out += literal_pieces(fmt[pos:], where)
         if rest:
             raise ExtractFail(where, "fprintf: more arguments than conversions")
         return out
-    if t == "wasmCWriteFileTableUse(file,module,assertSizeU32(tableImportCount)+tableIndex,true)":
+    if ctx == "table" and text in TABLE_REF:
         return [".tableRef"]
-    if t == "wasmCWriteFileTableUse(file,module,elementSegment.tableIndex,false)":
+    if ctx == "entry" and text == "wasmCWriteFileTableUse(file,module,%s.tableIndex,false)" % SEG:
         return [".segTable"]
-    if t == "wasmCWriteFileFunctionUse(file,module,moduleName,functionIndex,true,multipleModules)":
-        if aliases.get("functionIndex") != "elementSegment.functionIndices[functionIndexIndex]":
-            raise ExtractFail(where, "`functionIndex` is not the listed function of the current entry")
+    if ctx == "entry" and text == "wasmCWriteFileFunctionUse(file,module,moduleName,%s.functionIndices[$i0],true,multipleModules)" % SEG:
         return [".funcRef"]
-    if t == "MUST(wasmCWriteConstantExpr(&stringBuilder,module,code))":
-        if aliases.get("code") != "elementSegment.offset":
-            raise ExtractFail(where, "`code` is not the segment's offset expression")
+    if ctx == "seg" and text == "MUST(wasmCWriteConstantExpr(&%s,module,%s.offset))" % (sb, SEG):
         return ["%pending-offset"]
-    if t == "fputs(stringBuilder.string,file)":
+    if ctx == "seg" and text == "fputs(%s.string,file)" % sb:
         return ["%flush-offset"]
-    raise ExtractFail(where, "statement outside the accepted shapes of the InitTables emitter: %s" % text[:80])
+    raise ExtractFail(where, "statement outside the accepted shapes of the InitTables emitter (%s loop): %s" % (ctx, text[:90]))
 
 
-def flatten(stmts, guards, where, aliases, out, stop_for=None):
-    """appends (guards, piece) in source order.  `stop_for`: head of a nested `for` that ends this level (returned as (body, rest))"""
-    for n, st in enumerate(stmts):
-        k = st[0]
-        if k == "block":
-            r = flatten(st[1], guards, where, aliases, out, stop_for)
-            if r is not None:
-                if any(s[0] != "stmt" or nows(s[1]) for s in stmts[n + 1:]):
-                    raise ExtractFail(where, "statements after the inner loop's block")
-                return r
-        elif k == "stmt":
-            t = nows(st[1])
-            if t in DECLS:
-                if DECLS[t]:
-                    aliases[DECLS[t][0]] = DECLS[t][1]
-                continue
-            if stop_for and t == "U32functionIndexIndex=0":
-                continue
-            for x in leaf(st[1], where, aliases):
+def flatten(nodes, guards, where, ctx, sb, out):
+    for nd in nodes:
+        if nd[0] == "do":
+            for x in leaf(nd[1], where, ctx, sb):
                 out.append((list(guards), x))
-        elif k == "if":
-            if nows(st[1]) != "pretty":
-                raise ExtractFail(where, "condition `%s` inside an InitTables loop" % st[1].strip())
+        elif nd[0] == "if" and nd[1] == "pretty":
             a = []
-            flatten([st[2]], guards + [".pretty true"], where, aliases, a)
-            if st[3] is None:
+            flatten(nd[2], guards + [".pretty true"], where, ctx, sb, a)
+            if not nd[3]:
                 if a:
                     raise ExtractFail(where, "`if (pretty)` without else emits more than indentation: %r" % (a,))
                 continue
             out.extend(a)
-            flatten([st[3]], guards + [".pretty false"], where, aliases, out)
-        elif k == "for" and stop_for and nows(st[1]) == stop_for:
-            body = st[2][1] if st[2][0] == "block" else [st[2]]
-            if stmts[n + 1:]:
-                raise ExtractFail(where, "statements after the inner loop")
-            return body
+            flatten(nd[3], guards + [".pretty false"], where, ctx, sb, out)
         else:
-            raise ExtractFail(where, "`%s` statement inside an InitTables loop" % k)
-    return None
+            raise ExtractFail(where, "`%s` %r inside the %s part of InitTables" % (nd[0], nd[1] if len(nd) > 1 else "", ctx))
 
 
 def fuse_offset(leaves, where):
@@ -164,58 +147,48 @@ def fuse_offset(leaves, where):
 def loops(src):
     body, line = function_body(src, "wasmCWriteInitTables", C)
     where = "%s:%d" % (C, line)
-    top = parse_stmts(must_unwrap(body), where)
-    plain_top = [nows(s[1]) for s in top if s[0] == "stmt"]
-    for want in ("constU32elementSegmentCount=module->elementSegments.count", "constU32tableCount=module->tables.count",
-                 "constsize_ttableImportCount=module->tableImports.length"):
-        if want not in plain_top:
-            raise ExtractFail(where, "missing `%s`" % want)
-    ifs = [s for s in top if s[0] == "if"]
-    if len(ifs) != 1 or nows(ifs[0][1]) != "tableCount>0||elementSegmentCount>0" or ifs[0][3] is not None:
-        raise ExtractFail(where, "outer guard of the InitTables definition changed")
-    inner = ifs[0][2][1]
-    plain = [nows(s[1]) for s in inner if s[0] == "stmt"]
-    if [p for p in plain if p.startswith("fprintf(")] != ['fprintf(file,"staticvoid%sInitTables(%sInstance*i){\\n",moduleName,moduleName)']:
+    nodes = cnorm.normalize(body, where)
+    if len(nodes) != 2 or nodes[0][0] != "if" or nodes[1] != ("return", "true") or nodes[0][3]:
+        raise ExtractFail(where, "wasmCWriteInitTables is not one guarded definition")
+    g = nodes[0][1]
+    atoms = sorted(x for x, p in g[1]) if isinstance(g, tuple) and g[0] == "or" and all(p for _, p in g[1]) else None
+    if atoms != ["0<module->elementSegments.count", "0<module->tables.count"]:
+        raise ExtractFail(where, "outer guard of the InitTables definition changed: %r" % (g,))
+    inner = list(nodes[0][2])
+    # the string builder used for the offset expression
+    sb = None
+    for nd in inner:
+        m = re.fullmatch(r"(\$v\d+)=emptyStringBuilder", nd[1]) if nd[0] == "do" else None
+        if m:
+            sb = m.group(1)
+    if sb is None:
+        raise ExtractFail(where, "no string builder")
+    skip = ("%s=emptyStringBuilder" % sb, "MUST(stringBuilderInitialize(&%s))" % sb, "stringBuilderFree(&%s)" % sb)
+    inner = [nd for nd in inner if not (nd[0] == "do" and nd[1] in skip)]
+    if not inner or inner[0] != ("do", 'fprintf(file,"static void %sInitTables(%sInstance* i) {\\n",moduleName,moduleName)'):
         raise ExtractFail(where, "InitTables header line changed")
-    if 'fputs("}\\n\\n",file)' not in plain:
+    if inner[-1] != ("do", 'fputs("}\\n\\n",file)'):
         raise ExtractFail(where, "closing brace of InitTables not found")
-    # declaration of `offset`
-    dif = [s for s in inner if s[0] == "if"]
-    if len(dif) != 1 or nows(dif[0][1]) != "elementSegmentCount>0" or dif[0][3] is not None:
-        raise ExtractFail(where, "the declaration of `offset` is no longer guarded by elementSegmentCount > 0 alone")
+    mid = inner[1:-1]
+    if len(mid) != 3 or mid[0][0] != "if" or mid[0][1] != "0<module->elementSegments.count" or mid[0][3]:
+        raise ExtractFail(where, "expected: declaration of `offset` (iff there are element segments), table loop, element segment loop")
     decl = []
-    flatten([dif[0][2]], [".hasElems"], where, {}, decl)
-    blocks = [s for s in inner if s[0] == "block"]
-    if len(blocks) != 2 or [s[0] for s in inner].index("if") > [k for k, s in enumerate(inner) if s[0] == "block"][0]:
-        raise ExtractFail(where, "expected the declaration, then two blocks (tables, element segments)")
-    # table loop
-    tbody, tbefore, tafter = find_for(blocks[0][1], ";tableIndex<tableCount;tableIndex++", where, "table loop")
-    if [nows(s[1]) for s in tbefore if s[0] == "stmt"] != ["U32tableIndex=0"] or tafter or len(tbefore) != 1:
-        raise ExtractFail(where, "table loop does not start at index 0 / has neighbours")
+    flatten(mid[0][2], [".hasElems"], where, "decl", sb, decl)
+    tl_node, sl_node = mid[1], mid[2]
+    if tl_node[0] != "loop" or tl_node[1:4] != ("$i0", "0", "module->tables.count"):
+        raise ExtractFail(where, "table loop does not run over all defined tables from index 0: %r" % (tl_node[:4],))
     tl = []
-    if flatten(tbody, [], where, {}, tl) is not None:
-        raise ExtractFail(where, "nested loop in the table loop")
-    # segment loop with the nested entry loop
-    sbody, sbefore, safter = find_for(blocks[1][1], ";elementSegmentIndex<elementSegmentCount;elementSegmentIndex++", where, "element segment loop")
-    if [nows(s[1]) for s in sbefore if s[0] == "stmt"] != ["U32elementSegmentIndex=0"] or safter or len(sbefore) != 1:
-        raise ExtractFail(where, "element segment loop does not start at index 0 / has neighbours")
-    aliases = {}
+    flatten(tl_node[4], [], where, "table", sb, tl)
+    if sl_node[0] != "loop" or sl_node[1:4] != ("$i1", "0", "module->elementSegments.count"):
+        raise ExtractFail(where, "element segment loop does not run over all segments from index 0 (with one inner loop): %r" % (sl_node[:4],))
+    sbody = sl_node[4]
+    if not sbody or sbody[-1][0] != "loop" or sbody[-1][1:4] != ("$i0", "0", SEG + ".functionIndexCount"):
+        raise ExtractFail(where, "entry loop (position from 0 to functionIndexCount) not found at the end of the segment loop")
     sh = []
-    ebody = flatten(sbody, [], where, aliases, sh, stop_for=";functionIndexIndex<elementSegment.functionIndexCount;functionIndexIndex++")
-    if ebody is None:
-        raise ExtractFail(where, "entry loop (functionIndexIndex from 0 to functionIndexCount) not found at the end of the segment loop")
-    if "U32functionIndexIndex=0" not in nows(body):
-        raise ExtractFail(where, "entry loop does not start at position 0")
+    flatten(sbody[:-1], [], where, "seg", sb, sh)
     sh = fuse_offset(sh, where)
     el = []
-    if flatten(ebody, [], where, aliases, el) is not None:
-        raise ExtractFail(where, "nested loop in the entry loop")
-    for g, x in tl:
-        if x in (".position", ".funcIndex", ".funcRef", ".segTable", ".offsetExpr"):
-            raise ExtractFail(where, "table loop refers to element segments")
-    for g, x in sh + el:
-        if x in (".tableRef", ".tableMin", ".tableMax"):
-            raise ExtractFail(where, "element segment loop refers to the table being allocated")
+    flatten(sbody[-1][4], [], where, "entry", sb, el)
     return decl, tl, sh, el
 
 
